@@ -52,6 +52,8 @@ func builtinScenarios(prop string) map[string]*Case {
 		"tune-down-with-idle-workers": {Cfg: Config{Kind: "plain", Queues: []string{"std"}, Conc: 3, Ratio: 100, FinalStop: true},
 			Clients: [][]Op{nil, {{Op: "barrier"}, {Op: "add", It: p(4)}, {Op: "add", It: p(5)}, {Op: "add", It: p(6)}},
 				{{Op: "add", It: g(1)}, {Op: "add", It: g(2)}, {Op: "add", It: g(3)}, {Op: "settle"}, {Op: "release", N: 1}, {Op: "release", N: 2}, {Op: "release", N: 3}, {Op: "settle"}, {Op: "barrier"}, {Op: "add", It: g(7)}, {Op: "tune", V: 1}}}},
+		"restart-vs-resume": {Cfg: Config{Kind: "plain", Queues: []string{"std"}, Conc: 1},
+			Clients: [][]Op{{{Op: "barrier"}, {Op: "restart"}}, {{Op: "barrier"}, {Op: "resume"}}, {{Op: "pause"}, {Op: "add", It: g(1)}, {Op: "add", It: p(2)}, {Op: "settle"}, {Op: "barrier"}}}},
 		"idle-expiry": {Cfg: Config{Kind: "plain", Queues: []string{"std"}, Conc: 2, ExpiryUs: 60, FinalStop: true},
 			Clients: [][]Op{nil, {{Op: "add", It: p(1)}, {Op: "add", It: p(2)}, {Op: "sleep", V: 200}, {Op: "add", It: p(3)}, {Op: "wait", N: 3}}}},
 		"samplers": {Cfg: Config{Kind: "plain", Queues: []string{"std"}, Conc: 1},
@@ -59,7 +61,7 @@ func builtinScenarios(prop string) map[string]*Case {
 	}
 	use := map[string][]string{
 		"C01": {"qclose-vs-add", "tune-down-with-idle-workers", "two-adds-then-wuf", "pausewait-vs-adds", "stop-restart-vs-adds", "cancel-vs-dispatch", "idle-expiry"},
-		"C02": {"tune-down-under-load", "stop-restart-vs-adds", "tune-down-with-idle-workers"},
+		"C02": {"tune-down-under-load", "stop-restart-vs-adds", "tune-down-with-idle-workers", "restart-vs-resume"},
 		"C03": {"two-adds-then-wuf", "pausewait-vs-adds", "idle-expiry", "tune-down-under-load"},
 		"C05": {"cancel-vs-dispatch", "result-batch-of-3", "purge-vs-add", "batch-wait"},
 		"C06": {"two-adds-then-wuf", "pausewait-vs-adds", "stop-restart-vs-adds", "purge-vs-add"},
@@ -120,7 +122,7 @@ func sweepScenarios(spec *Spec, st *Stats, shard, nshards int, thorough bool, fa
 	budget := 4000 // episodes per scenario and shard
 	if thorough {
 		depth = 2
-		budget = 60000
+		budget = 25000
 	}
 	if st.Extra == nil {
 		st.Extra = map[string]any{}
@@ -146,6 +148,16 @@ func sweepScenarios(spec *Spec, st *Stats, shard, nshards int, thorough bool, fa
 		}
 		r0 := run(nil)
 		ss.BasePoints = r0.Dev.Multi
+		// this shard's share of the first deviations; when the budget does not cover every second
+		// deviation, each first deviation gets an equal share of them, taken at a regular stride
+		mine := (r0.Dev.Multi*sweepAlternatives + nshards - 1) / nshards
+		per := budget
+		if mine > 0 {
+			per = budget / mine
+		}
+		if per < 8 {
+			per = 8
+		}
 		idx := 0
 		for s1 := 0; s1 < r0.Dev.Multi; s1++ {
 			for p1 := 0; p1 < sweepAlternatives; p1++ {
@@ -153,25 +165,22 @@ func sweepScenarios(spec *Spec, st *Stats, shard, nshards int, thorough bool, fa
 				if idx%nshards != shard {
 					continue
 				}
-				if ss.Episodes >= budget {
+				if ss.Episodes >= 2*budget {
 					ss.Exhaustive = false
 					break
 				}
 				r1 := run([][2]int{{s1, p1}})
-				if depth < 2 {
+				if depth < 2 || len(r1.Dev.FiredAt) == 0 {
 					continue
 				}
-				if len(r1.Dev.FiredAt) == 0 {
-					continue
+				inner := (r1.Dev.Multi - r1.Dev.FiredAt[0] - 1) * sweepAlternatives
+				stride := 1
+				if inner > per {
+					stride = (inner + per - 1) / per
+					ss.Exhaustive = false
 				}
-				for s2 := 0; s2 < r1.Dev.Multi-r1.Dev.FiredAt[0]-1; s2++ {
-					for p2 := 0; p2 < sweepAlternatives; p2++ {
-						if ss.Episodes >= budget {
-							ss.Exhaustive = false
-							break
-						}
-						run([][2]int{{s1, p1}, {s2, p2}})
-					}
+				for k := (s1 + p1) % stride; k < inner; k += stride {
+					run([][2]int{{s1, p1}, {k / sweepAlternatives, k % sweepAlternatives}})
 				}
 			}
 		}
